@@ -76,6 +76,11 @@ structure ValCtx where
   out : List FileResult         -- implementation's validate()
   model : List FileResult       -- model's validate (hash order = identity), sorted by id
   defined : Defined
+  /-- the documents were read as written: the syntax-stage trees are the position-erased trees the
+      generator expects, explicit transact codes are the numbers in the source, and the range of an
+      explicit `oneway` keyword holds exactly that word (validation-level properties speak about source
+      documents, not about whatever the syntax stage made of them) -/
+  readOk : Bool := true
 
 def groupsOf (c : ValCtx) (fr : FileResult) : Option (Groups × List Diag) :=
   match fr.ast with
@@ -101,7 +106,7 @@ def resolutionAsSpecified (c : ValCtx) : Bool :=
 
 def handleC07 (c : ValCtx) (v : Verdict) : Verdict :=
   let v := v.addCorr "C07" (decide (c.model.map Spec.C07.proj = c.out.map Spec.C07.proj))
-  let v := v.addSpec "C07" (c.out.all Spec.C07.holdsFile && resolutionAsSpecified c)
+  let v := v.addSpec "C07" (c.out.all Spec.C07.holdsFile && resolutionAsSpecified c && c.readOk)
   let v := v.addAssume "C07" (c.stage1.all fun fr => match groupsOf c fr with
     | none => true
     | some (g, ids) => decide (Props.C07.Fresh g ids))
@@ -113,7 +118,7 @@ def handleC07 (c : ValCtx) (v : Verdict) : Verdict :=
 
 def handleC05 (c : ValCtx) (v : Verdict) : Verdict :=
   let v := v.addCorr "C05" (decide (c.model.map Spec.C05.proj = c.out.map Spec.C05.proj))
-  let v := v.addSpec "C05" ((zipById c.stage1 c.out).all fun (a, b) => Spec.C05.holdsFile c.defined a b)
+  let v := v.addSpec "C05" (((zipById c.stage1 c.out).all fun (a, b) => Spec.C05.holdsFile c.defined a b) && c.readOk)
   let v := v.addAssume "C05" (c.stage1.all fun fr => match groupsOf c fr with
     | none => true
     | some (g, _) => decide (Props.C05.Fresh g))
@@ -127,7 +132,7 @@ def handleC05 (c : ValCtx) (v : Verdict) : Verdict :=
 
 def handleC10 (c : ValCtx) (v : Verdict) : Verdict :=
   let v := v.addCorr "C10" (decide (c.model.map Spec.C10.proj = c.out.map Spec.C10.proj))
-  let v := v.addSpec "C10" ((zipById c.stage1 c.out).all fun (a, b) => Spec.C10.holdsFile a b)
+  let v := v.addSpec "C10" (((zipById c.stage1 c.out).all fun (a, b) => Spec.C10.holdsFile a b) && c.readOk)
   let v := v.addAssume "C10" (c.stage1.all fun fr => match fr.ast, groupsOf c fr with
     | some ast, some (g, ids) => decide (Props.C10.Fresh ast g ids)
     | _, _ => true)
@@ -139,7 +144,7 @@ def handleC10 (c : ValCtx) (v : Verdict) : Verdict :=
 
 def handleC09 (c : ValCtx) (v : Verdict) : Verdict :=
   let v := v.addCorr "C09" (decide (c.model.map Spec.C09.proj = c.out.map Spec.C09.proj))
-  let v := v.addSpec "C09" (c.out.all Spec.C09.holdsFile)
+  let v := v.addSpec "C09" (c.out.all Spec.C09.holdsFile && c.readOk)
   let v := v.addAssume "C09" (c.stage1.all fun fr => match groupsOf c fr with
     | some (g, ids) => decide (Props.C09.Fresh g ids)
     | none => true)
@@ -151,7 +156,7 @@ def handleC09 (c : ValCtx) (v : Verdict) : Verdict :=
 
 def handleC08 (c : ValCtx) (v : Verdict) : Verdict :=
   let v := v.addCorr "C08" (decide (c.model.map Spec.C08.proj = c.out.map Spec.C08.proj))
-  let v := v.addSpec "C08" (c.out.all Spec.C08.holdsFile && resolutionAsSpecified c)
+  let v := v.addSpec "C08" (c.out.all Spec.C08.holdsFile && resolutionAsSpecified c && c.readOk)
   let v := v.addAssume "C08" (c.stage1.all fun fr => match groupsOf c fr with
     | some (g, _) => decide (Props.C08.Fresh g)
     | none => true)
@@ -165,7 +170,7 @@ def handleC08 (c : ValCtx) (v : Verdict) : Verdict :=
 
 def handleC06 (c : ValCtx) (v : Verdict) : Verdict :=
   let v := v.addCorr "C06" (decide (c.model.map Spec.C06.proj = c.out.map Spec.C06.proj))
-  let v := v.addSpec "C06" (c.out.all (Spec.C06.holdsFile c.defined) && resolutionAsSpecified c)
+  let v := v.addSpec "C06" (c.out.all (Spec.C06.holdsFile c.defined) && resolutionAsSpecified c && c.readOk)
   let v := v.addAssume "C06" (c.stage1.all fun fr => match groupsOf c fr with
     | some (g, _) => decide (Props.C06.Fresh g)
     | none => true)
@@ -181,6 +186,40 @@ def handleC06 (c : ValCtx) (v : Verdict) : Verdict :=
 def valHandlers : List (String × (ValCtx → Verdict → Verdict)) :=
   [("C07", handleC07), ("C05", handleC05), ("C10", handleC10), ("C09", handleC09), ("C08", handleC08),
    ("C06", handleC06)]
+
+/-- byte slice of a text -/
+def sliceText (text : String) (a b : Nat) : String :=
+  String.ofList ((Javadoc.sliceBytes text.toList a b).getD [])
+
+/-- see `ValCtx.readOk` -/
+def readAsWritten (j : Json) (stage1 : List FileResult) : Bool :=
+  let sxOk := match (j.getObjVal? "expect_sx").toOption with
+    | none => true
+    | some e => match (list (fun x => do pure ((← str (← fld x "id")), (← str (← fld x "sx")))) e) with
+      | .error _ => false
+      | .ok exp => exp.all fun (id, sx) =>
+          match stage1.find? (fun fr => fr.id == id) with
+          | some fr => (fr.ast.map Spec.PL.sxAidl) == some sx
+          | none => false
+  let codesOk := match (j.getObjVal? "expect_codes").toOption with
+    | none => true
+    | some e => match (list (fun x => do
+          let a ← arr x
+          let c := match a[1]! with | .null => none | y => y.getNat?.toOption
+          pure ((← str a[0]!), c)) e) with
+      | .error _ => false
+      | .ok exp => match stage1.find? (fun fr => fr.id == "main") with
+        | some fr => (fr.ast.map fun a => (Spec.methodsOf a).map fun m => (m.name, m.transactCode)) == some exp
+        | none => false
+  -- an explicit `oneway` of a method: its range holds exactly the keyword
+  let texts := ((j.getObjVal? "files").toOption.bind fun f => (list (fun x => do pure ((← str (← fld x "id")), (← str (← fld x "text")))) f).toOption).getD []
+  let onewayOk := stage1.all fun fr =>
+    match fr.ast, texts.lookup fr.id with
+    | some a, some text => (Spec.methodsOf a).all fun m =>
+        let w := sliceText text m.onewayRange.start.off m.onewayRange.stop.off
+        !m.oneway || w == "oneway"
+    | _, _ => true
+  sxOk && codesOk && onewayOk
 
 def opValidate (prop : String) (j : Json) : R Verdict := do
   let impl ← fld j "impl"
@@ -210,7 +249,7 @@ def opValidate (prop : String) (j : Json) : R Verdict := do
   match model with
   | none => pure ()
   | some m =>
-    let ctx : ValCtx := { stage1, out, model := m, defined := collectItemKeys stage1 }
+    let ctx : ValCtx := { stage1, out, model := m, defined := collectItemKeys stage1, readOk := readAsWritten j stage1 }
     for (p, h) in valHandlers do
       if prop == p || prop == "all" then v := h ctx v
   return v
@@ -239,7 +278,10 @@ def opWalk (prop : String) (j : Json) : R Verdict := do
   let expectedWalks := (out.filter (fun fr => fr.ast.isSome)).length
   if nfiles ≠ expectedWalks then acc := { acc with corr15 := false }
   if prop == "C15" || prop == "all" then
-    v := (v.addCorr "C15" acc.corr15).addSpec "C15" acc.spec15
+    let readOk15 := match (impl.getObjVal? "stage1").toOption.bind (fun sj => (list fileResult sj).toOption) with
+      | some stage1 => readAsWritten j stage1
+      | none => true
+    v := (v.addCorr "C15" acc.corr15).addSpec "C15" (acc.spec15 && readOk15)
     v := { v with nontrivial := acc.nsyms > 3, dist := bump v.dist s!"symbols~{min (acc.nsyms / 10 * 10) 100}" }
   if prop == "C16" || prop == "all" then
     v := ((v.addCorr "C16" acc.corr16).addSpec "C16" acc.spec16).addAssume "C16" acc.assume16
@@ -255,7 +297,10 @@ def opWalk (prop : String) (j : Json) : R Verdict := do
         | .ok stage1 =>
           let defined := collectItemKeys stage1
           resolutionAsSpecified { stage1, out, model := [], defined }
-    v := (v.addCorr "C17" acc.corr17).addSpec "C17" (Spec.C17.holdsProject out reported && resOk)
+    let readOk := match (impl.getObjVal? "stage1").toOption.bind (fun sj => (list fileResult sj).toOption) with
+      | some stage1 => readAsWritten j stage1
+      | none => true
+    v := (v.addCorr "C17" acc.corr17).addSpec "C17" (Spec.C17.holdsProject out reported && resOk && readOk)
     let nres := (out.flatMap fun fr => match fr.ast with
       | some b => (allTypesPre b).filter (fun t => match t.kind with | .resolved _ rk => Spec.C17.isItemKind rk | _ => false)
       | none => []).length
